@@ -681,6 +681,76 @@ Proof.
 Qed.
 
 
+(* ---- hvcC ---- *)
+Lemma lenN_firstn' {A} n (l : list A) : lenN (firstn n l) <= lenN l.
+Proof. unfold lenN. rewrite firstn_length. lia. Qed.
+
+Lemma hvcc_nalus_bounded raw n : forall fuel i s al it,
+  r_pos s <= lenN raw -> (lenN raw - r_pos s) / 2 < N.of_nat fuel ->
+  exists failed al' it' s', hvcc_nalus raw fuel n i s al it = Ok (failed, al', it', s') /\
+    r_pos s <= r_pos s' /\ r_pos s' <= lenN raw /\
+    (failed = false -> al' <= al + 12 * (r_pos s' - r_pos s) /\ it' <= it + (r_pos s' - r_pos s)) /\
+    al' <= al + 12 * (lenN raw - r_pos s) + 24 /\ it' <= it + (lenN raw - r_pos s) + 1.
+Proof.
+  induction fuel as [|f IH]; intros i s al it Hp Hf; [lia|].
+  cbn [hvcc_nalus]. destruct (n <=? i); [do 4 eexists; split; [reflexivity|]; repeat split; lia|].
+  pose proof (rd_n_state raw 2 s) as A. destruct (rd_n raw 2 s) as [len s1]. cbn [snd] in A.
+  pose proof (rd_skip_state raw len s1) as B. set (s2 := rd_skip raw len s1) in *. cbn zeta in B.
+  assert (P1 : r_pos s <= r_pos s1 /\ r_pos s1 <= lenN raw) by (destruct A as [(_ & ->)|(_ & _ & ? & ?)]; lia).
+  assert (P2 : r_pos s1 <= r_pos s2 /\ r_pos s2 <= lenN raw) by (destruct B as [(_ & ->)|(_ & _ & ? & ?)]; lia).
+  destruct (r_err s2) eqn:E2.
+  - do 4 eexists; split; [reflexivity|]. repeat split; try lia; discriminate.
+  - destruct B as [(B1 & _)|(_ & B1 & B2 & _)]; [congruence|].
+    destruct A as [(A1 & _)|(_ & _ & A2 & _)]; [congruence|].
+    destruct (IH (i + 1) s2 (al + 24) (it + 1) ltac:(lia)) as (fl & al' & it' & s' & -> & Q1 & Q2 & Q3 & Q4 & Q5).
+    { assert ((lenN raw - r_pos s2) / 2 + 1 <= (lenN raw - r_pos s) / 2); [|lia].
+      replace ((lenN raw - r_pos s2) / 2 + 1) with ((lenN raw - r_pos s2 + 1 * 2) / 2) by (rewrite N.div_add by discriminate; reflexivity).
+      apply N.div_le_mono; [discriminate|lia]. }
+    do 4 eexists; split; [reflexivity|]. repeat split; try lia; intros F; destruct (Q3 F); lia.
+Qed.
+
+Lemma hvcc_arrays_bounded raw : forall n s arrays al it, r_pos s <= lenN raw ->
+  exists failed a al' it' s', hvcc_arrays raw n s arrays al it = Ok (failed, a, al', it', s') /\
+    al' <= al + 12 * (lenN raw - r_pos s) + 24 + 32 * N.of_nat n /\ it' <= it + (lenN raw - r_pos s) + 1 + N.of_nat n.
+Proof.
+  induction n as [|n IH]; intros s arrays al it Hp; [do 5 eexists; split; [reflexivity|lia]|].
+  cbn [hvcc_arrays].
+  pose proof (rd_skip_state raw 1 s) as A. set (s1 := rd_skip raw 1 s) in *. cbn zeta in A.
+  pose proof (rd_n_state raw 2 s1) as B. destruct (rd_n raw 2 s1) as [nn s2]. cbn [snd] in B.
+  assert (P1 : r_pos s <= r_pos s1 /\ r_pos s1 <= lenN raw) by (destruct A as [(_ & ->)|(_ & _ & ? & ?)]; lia).
+  assert (P2 : r_pos s1 <= r_pos s2 /\ r_pos s2 <= lenN raw) by (destruct B as [(_ & ->)|(_ & _ & ? & ?)]; lia).
+  destruct (hvcc_nalus_bounded raw nn (S (length raw)) 0 s2 al (it + 1) ltac:(lia)) as (fl & al1 & it1 & s3 & -> & Q1 & Q2 & Q3 & Q4 & Q5).
+  { assert ((lenN raw - r_pos s2) / 2 <= lenN raw - r_pos s2) by (apply N.div_le_upper_bound; lia). unfold lenN in *. lia. }
+  destruct fl.
+  - do 5 eexists; split; [reflexivity|]. lia.
+  - destruct (Q3 eq_refl) as [Q6 Q7].
+    destruct (IH s3 (arrays + 1) (al1 + 32) it1 Q2) as (f2 & a2 & al2 & it2 & s4 & -> & R1 & R2).
+    do 5 eexists; split; [reflexivity|]. lia.
+Qed.
+
+Lemma hvcc_record_bounded raw : bounded (hvcc_record raw) 12 8184 1 256 (lenN raw).
+Proof.
+  unfold hvcc_record.
+  assert (P1 := rd_n_pos raw 1 rd0 ltac:(cbn; lia)). destruct (rd_n raw 1 rd0) as [ver s1]. cbn [snd] in P1.
+  destruct (negb (ver =? 1)); [apply bounded_rej|].
+  match goal with |- context [rd_n raw 1 ?s] =>
+    assert (P2 : r_pos s <= lenN raw) by (repeat apply rd_skip_pos; exact P1);
+    assert (P3 := rd_n_pos raw 1 s P2); destruct (rd_n raw 1 s) as [ab s2] end. cbn [snd] in P3.
+  destruct (negb (ab mod 4 =? 3)); [apply bounded_rej|].
+  pose proof (rd_n_lt raw 1 s2) as L. assert (Hp := rd_n_pos raw 1 s2 P3).
+  destruct (rd_n raw 1 s2) as [na s3]. cbn [fst snd] in L, Hp. change (256 ^ 1) with 256 in L.
+  destruct (hvcc_arrays_bounded raw (N.to_nat na) s3 0 0 0 Hp) as (f & a & al & it & s' & -> & Ha & Hi).
+  unfold bounded. eexists; split; [reflexivity|]. cbn [o_alloc o_iters]. split; lia.
+Qed.
+
+Lemma alloc_hvcc_bounded p hs hl body : bounded (alloc_hvcc p hs hl body) 12 8184 1 256 (lenN body).
+Proof.
+  unfold alloc_hvcc. destruct p; [|apply hvcc_record_bounded].
+  destruct (r_err (rd_bytes_z body (apayload_len hs hl) rd0)).
+  - eapply bounded_weaken; [apply hvcc_record_bounded| | | |]; cbn; lia.
+  - eapply bounded_weaken; [apply hvcc_record_bounded| | | |]; try lia. apply lenN_firstn'.
+Qed.
+
 (* ---- box level ---- *)
 Definition bounded_tab (r : res aout) (n : N) : Prop :=
   exists o, r = Ok o /\ o_alloc o <= 86 * n + 1048560 /\ o_iters o <= 3 * n + 65536.
